@@ -165,6 +165,8 @@ class sym_str(builtins.str, metaclass=_SymStrMeta):
     def __new__(cls, x='', *a, **kw):
         if isinstance(x, SInt):
             return SIntStr(x)
+        if hasattr(x, '__symstr__'):
+            return x.__symstr__()
         return builtins.str(x, *a, **kw)
 
 
@@ -516,3 +518,97 @@ class SymSet(set):
             return builtins.bool(mkbool(
                 z3.Or(*[E(k) == E(kk) for kk in set.__iter__(self)])))
         return set.__contains__(self, k)
+
+
+# --------------------------------------------------------------------------
+# uuid (E-uuid): 128-bit value <-> 16 bytes; canonical text kept abstract
+# --------------------------------------------------------------------------
+
+import uuid as _uuid
+
+
+class SUUIDStr:
+    """the canonical text form of a UUID whose 16 bytes are symbolic"""
+    _symx_ = True
+
+    def __init__(self, b):
+        self.b = SBytes.of(b)
+
+    def fold(self):
+        n = self.b.native()
+        return self if n is None else builtins.str(_uuid.UUID(bytes=n))
+
+    def eq_expr(self, o):
+        from .core import bytes_eq
+        if isinstance(o, SUUIDStr):
+            return bytes_eq(self.b, o.b)
+        if isinstance(o, builtins.str):
+            try:
+                u = _uuid.UUID(o)
+            except ValueError:
+                return z3.BoolVal(False)
+            if builtins.str(u) != o:
+                return z3.BoolVal(False)
+            return bytes_eq(self.b, u.bytes)
+        return z3.BoolVal(False)
+
+    def __eq__(self, o):
+        return mkbool(self.eq_expr(o))
+
+    def __ne__(self, o):
+        return mkbool(z3.Not(self.eq_expr(o)))
+
+    def __hash__(self):
+        return hash(builtins.str(_uuid.UUID(bytes=self.b.concretize())))
+
+    def __str__(self):
+        return builtins.str(_uuid.UUID(bytes=self.b.concretize()))
+
+    def __repr__(self):
+        return '<SUUIDStr>'
+
+
+class SUUID:
+    def __init__(self, hex=None, bytes=None, **kw):
+        if kw:
+            raise Unsupported('uuid.UUID(%r)' % list(kw))
+        if bytes is not None:
+            if builtins.len(bytes) != 16:
+                raise ValueError('bytes is not a 16-char string')
+            self.bytes = SBytes.of(bytes).fold()
+        elif isinstance(hex, SUUIDStr):
+            self.bytes = hex.b.fold()
+        elif isinstance(hex, builtins.str):
+            self.bytes = _uuid.UUID(hex).bytes
+        else:
+            raise TypeError('one of the hex, bytes arguments must be given')
+
+    def __symstr__(self):
+        return SUUIDStr(self.bytes).fold()
+
+    def __str__(self):
+        return builtins.str(self.__symstr__())
+
+    @property
+    def hex(self):
+        raise Unsupported('UUID.hex on symbolic value')
+
+
+class UuidModel:
+    UUID = SUUID
+    uuid4 = staticmethod(_uuid.uuid4)
+
+
+def uuid_input(ctx, name):
+    """an arbitrary UUID in canonical text form"""
+    if ctx.mode == 'conc':
+        return builtins.str(_uuid.UUID(bytes=builtins.bytes.fromhex(
+            ctx._val(name))))
+    return SUUIDStr(ctx.bytes(name, 16))
+
+
+def uuid_bytes(x):
+    """oracle helper: the 16 bytes of a uuid-string-like as items"""
+    if isinstance(x, SUUIDStr):
+        return x.b.items
+    return list(_uuid.UUID(x).bytes)
